@@ -229,6 +229,8 @@ def run_impl(ctx, cases, harness="impl_track"):
         noises = iter(r.get("noise", []))
         per = []
         for k, o in enumerate(c.ops):
+            if k >= len(r["pos"]):
+                break          # the harness stopped the case after a particle left the grid
             d = dict(pos=_pairs(r["pos"][k]))
             if o["k"] in ("kick", "drift", "rf"):
                 d["offs"] = [parse_c(t) for t in next(offs)]
@@ -255,6 +257,8 @@ def model_text(c, r):
     n = c.n
     pre = [(Fraction(x), Fraction(y)) for x, y in c.parts]
     for k, o in enumerate(c.ops):
+        if k >= len(r["ops"]):
+            break
         d = r["ops"][k]
         if not _finite(pre):
             break
@@ -286,7 +290,7 @@ def model_text(c, r):
 def fptab_text(c, r):
     t = []
     for k, o in enumerate(c.ops):
-        if o["k"] != "fp":
+        if o["k"] != "fp" or k >= len(r["ops"]):
             continue
         d = r["ops"][k]
         t.append("fptab %s.%d.tab %d %d %d %s %s %s %s\n" % (c.cid, k, c.n, o["dt"], o["fptype"], qtok(Fraction(f32(o["e1"]))),
